@@ -74,11 +74,7 @@ def oracle(case, rec, res, base, K):
     return view
 
 
-def _scenarios_strategy():
-    return _strategy()
-
-
-@prop.given("scenarios", _scenarios_strategy, quick=1500, thorough=50000)
+@prop.given("scenarios", _strategy, quick=1500, thorough=50000)
 @_survey
 async def check_scenarios(case, rec):
     from vf import recovery_kit as K
@@ -87,7 +83,6 @@ async def check_scenarios(case, rec):
     plan = K.resolve_plan(shape, case["plan"])
     base = await K.baseline(case["shape"])
     res = await K.run_scenario(case["shape"], plan, max_retries=K.safe_retries(shape, plan), schedule=case["schedule"], wait_order=case.get("wait_order", 0))
-    import os
     oracle(case, rec, res, base, K)
 
 
